@@ -319,7 +319,7 @@ class StmtMixin:
         out = []
         for s, v in self.ev(st, n.exc):
             if is_exc(v):
-                out.append((s, ("raise", Exc(v.etype, v.val, node=n) if v.node is None or True else v)))
+                out.append((s, ("raise", v)))
             elif isinstance(v, PyC) and isinstance(v.obj, type) and issubclass(v.obj, BaseException):
                 out.append((s, ("raise", Exc(v.obj, node=n))))
             elif isinstance(v, SymObj) and issubclass(v.cls, BaseException):
@@ -363,7 +363,7 @@ class StmtMixin:
                     if types is None or issubclass(exc.etype, types):
                         s2 = s
                         if h.name:
-                            s2.env = {**s2.env, h.name: exc}
+                            s2.env = {**s2.env, h.name: exc.val if exc.val is not None else SymObj(exc.etype, {})}
                         self.reraise_stack.append(exc)
                         try:
                             out.extend(self.exec_block(s2, h.body))
